@@ -10,5 +10,6 @@ trap 'git -C /repo checkout -q -- .' EXIT
 for id in "$@"; do
   OUT=$(./run.sh "$id" "${VERIF_TIER:-quick}" 2>&1); RC=$?
   V=$(echo "$OUT" | grep -c '^VIOLATION')
-  echo "$id exit=$RC violation_lines=$V :: $(echo "$OUT" | grep '^  what:' | sort | uniq -c | sort -rn | head -2 | tr '\n' ';')"
+  INC=$(echo "$OUT" | grep -o 'inconclusive=[0-9]*' | tail -1)
+  echo "$id exit=$RC violation_lines=$V ${INC:-inconclusive=?} :: $(echo "$OUT" | grep '^  what:' | sort | uniq -c | sort -rn | head -2 | tr '\n' ';')"
 done
